@@ -194,6 +194,8 @@ def scriptOp (req : Json) : Except String Json := do
       ("instrs", c.instrs.length),
       ("depth", match depth c.instrs 0 with | some d => (d : Json) | none => Json.null),
       ("eval", ev), ("eval_panic", r.isPanic),
+      -- exact value: IEEE-754 bits (the decimal rendering above is for reading only)
+      ("eval_bits", match r with | .some v => (v.toBits.toNat : Json) | _ => Json.null),
       ("fields", Json.arr (c.fields.map natsToJson).toArray)]
 
 /-! ### minimum_should_match -/
